@@ -38,6 +38,11 @@ def cases():
     for is_buy in (True, False):
         for triple in itertools.product(vals, repeat=3):
             yield {"is_buy": is_buy, "orders": list(triple)}
+    # prices one tick apart on a fine grid (tick 1e-5 near 30000: the relative difference is below 1e-9), and time 0 against later times
+    near = [(p, t) for p in (30000.0, 30000.00001, 29999.99999) for t in (0, 1, 2)]
+    for is_buy in (True, False):
+        for triple in itertools.product(near, repeat=3):
+            yield {"is_buy": is_buy, "orders": list(triple)}
 
 
 def search(seed, tier, obligation, hints):
